@@ -8,7 +8,7 @@ the threshold. A failing track is shrunk to the single pair (dummy note + pair).
 
 from __future__ import annotations
 
-from .. import e1, impl
+from .. import envs, e1, impl
 from ..chartgen import COMBOS, mk, note_lines
 
 ID = "C04"
@@ -35,6 +35,7 @@ FLAGS = ((), (6,), (5,), (5, 6))
 
 
 def setup():
+    envs.enable(32)  # E1-M: every 32nd case again under every environment of mc/envs.py
     global probe
     impl.load()
     probe = e1.compile_probe(PROBE_SRC)
